@@ -331,6 +331,17 @@ theorem consistent_step (P : Params) (s s' : State) (e : Event) (h : Consistent 
   | tick d =>
     simp only [step, Option.some.injEq] at hs; subst hs
     exact consistent_congr h rfl rfl rfl rfl rfl rfl rfl rfl rfl rfl rfl
+  | abort =>
+    simp only [step] at hs
+    split at hs
+    · next hrun =>
+      simp only [Option.some.injEq] at hs; subst hs
+      split
+      · exact h
+      · obtain ⟨a1, a2, a3, a4, a5, a6, a7, a8, a9, a10, a11, a12⟩ := h
+        constructor <;> simp only [SlotHasId] <;> (try assumption)
+        intro _ _ _ hr; simp at hr
+    · simp at hs
   | runTake =>
     simp only [step] at hs
     split at hs
@@ -448,7 +459,7 @@ theorem live_init : Live init := by
 
 theorem live_step (P : Params) (hP : P.Good) (s s' : State) (e : Event)
     (hc : Consistent s) (h : Live s) (hs : step P s e = some s') : Live s' := by
-  obtain ⟨hD, hA, hR, _⟩ := hP
+  obtain ⟨hD, hA, hR, hH, _⟩ := hP
   obtain ⟨hl, hnd, hbt⟩ := h
   have ftw : s.tws s.nTws = none := hc.fresh_tws _ (Nat.le_refl _)
   cases e with
@@ -462,6 +473,11 @@ theorem live_step (P : Params) (hP : P.Good) (s s' : State) (e : Event)
     · simp [h1] at hx; subst hx; simp
     · simp [h1] at hx; exact hnd sid x hx
   | tick d => simp only [step, Option.some.injEq] at hs; subst hs; exact ⟨hl, hnd, hbt⟩
+  | abort =>
+    simp only [step, hH, if_true] at hs
+    split at hs
+    · simp only [Option.some.injEq] at hs; subst hs; exact ⟨hl, hnd, hbt⟩
+    · simp at hs
   | runTake =>
     simp only [step] at hs
     split at hs
